@@ -191,7 +191,6 @@ func (p *poller) acceptorLoop() {
 		defer runtime.UnlockOSThread()
 	}
 
-	p.shutdown = false
 	for !p.shutdown {
 		conn, err := p.listener.Accept()
 		if err == nil {
@@ -252,7 +251,6 @@ func (p *poller) readWriteLoop() {
 	}
 
 	g := p.g
-	p.shutdown = false
 	isOneshot := g.isOneshot
 	asyncReadEnabled := g.AsyncReadInPoller && (g.EpollMod == EPOLLET)
 	for !p.shutdown {
